@@ -66,6 +66,17 @@ func buildC11(tier string, seed int64) *Family {
 			add(a + " | " + b)
 		}
 	}
+	// unions over prefixed and unprefixed names (documents with symbolic prefixes)
+	pcfg := docCfg{N: cfg.N, A: 0, Names: "a,b", Pool: ","}
+	for _, t := range []string{"p:a | a", "a | p:a", "//p:a | //a", "//a | //p:b", "*/(p:a, a)", "p:a | p:b | b", "//p:a | //p:a", "p:a/a | a/p:a"} {
+		in := nodesetInst(t, pcfg)
+		in.ID += " prefixed"
+		in.Params["prefixes"] = ",p"
+		if top, ok := oracle.MustParse(t).(*oracle.Binary); ok && top.Op == "|" {
+			in.Params["nodup"] = "1"
+		}
+		insts = append(insts, in)
+	}
 	// identity kernel: element names and text/comment values are free byte strings
 	// (names over {a,b,-,.,1,2}, values over {a,=,-,1}); no name tests are used, so
 	// only node identity (the dedup key) decides the result
